@@ -10,7 +10,7 @@ class Syntax(Engine):
         "C07": ["PARSE", "PRINT", "REPARSE"],
         "C11": ["PARSE", "PRINT", "REPARSE", "REPRINT"],
         "C15": ["PARSE", "PRINT", "REPARSE"],
-        "C06": ["PARSE"],
+        "C06": ["PARSE", "PRINT"],
     }
 
     def compare_sections(self, prop):
